@@ -126,4 +126,172 @@ theorem callTwice_gain (num rest : Terms (Coef K)) (gs : List K) (mem1 mem2 : Me
   simp only [callTwice, hg0, denAfterCall_gain num rest gs hc]
   exact callTV_no_gain num rest mem2 zero2 xs2 hcn hpos
 
+/-! ### constant gain: the filter OBJECT after the first call, called again -/
+
+theorem advance_eq_map (off : Nat) (t : Terms (Coef K)) (its : List (List K)) :
+    advance off t its = t.map (fun kv => (kv.1,
+      match kv.2 with
+      | .strm _ => Coef.strm (its.getD (kv.1.toNat - off) [])
+      | .const c => Coef.const c)) := by
+  unfold advance
+  apply List.map_congr_left
+  intro kv _
+  obtain ⟨k, c⟩ := kv
+  cases c <;> rfl
+
+theorem order_advance (off : Nat) (t : Terms (Coef K)) (its : List (List K)) :
+    order (advance off t its) = order t := by
+  rw [advance_eq_map]
+  exact order_map_snd t _
+
+theorem advance_isEmpty (off : Nat) (t : Terms (Coef K)) (its : List (List K)) :
+    (advance off t its).isEmpty = t.isEmpty := by
+  cases t <;> rfl
+
+theorem advance_keys (off : Nat) (t : Terms (Coef K)) (its : List (List K)) :
+    ∀ kv ∈ advance off t its, ∃ kv' ∈ t, kv'.1 = kv.1 := by
+  intro kv hkv
+  rw [advance_eq_map] at hkv
+  obtain ⟨kv', hkv', rfl⟩ := List.mem_map.1 hkv
+  exact ⟨kv', hkv', rfl⟩
+
+/-- look-up in the object after the call: a Stream holds what its iterator has left -/
+theorem coefAt_advance (off : Nat) (t : Terms (Coef K)) (its : List (List K)) (j : Int) :
+    coefAt (advance off t its) j =
+      match coefAt t j with
+      | .strm _ => Coef.strm (its.getD (j.toNat - off) [])
+      | .const c => Coef.const c := by
+  rw [advance_eq_map]
+  have hp : ((fun kv : Int × Coef K => kv.1 == j) ∘ fun kv : Int × Coef K => (kv.1,
+      match kv.2 with
+      | .strm _ => Coef.strm (its.getD (kv.1.toNat - off) [])
+      | .const c => Coef.const c)) = (fun kv => kv.1 == j) := by funext kv; rfl
+  simp only [coefAt, List.find?_map, hp]
+  cases h : t.find? (fun kv => kv.1 == j) with
+  | none => rfl
+  | some kv =>
+    have hk : kv.1 = j := by simpa using List.find?_some h
+    obtain ⟨k, c⟩ := kv
+    simp only at hk
+    subst hk
+    cases c <;> rfl
+
+theorem dense_getD (t : Terms (Coef K)) (i : Nat) (hi : i ≤ order t) (ht : t.isEmpty = false) :
+    (dense t)[i]? = some (coefAt t (Int.ofNat i)) := by
+  simp only [dense, ht, Bool.false_eq_true, if_false, List.getElem?_map]
+  rw [List.getElem?_range (by omega)]
+  rfl
+
+/-- `values()` of the numerator after the call = the coefficients as the first `k` outputs left them -/
+theorem dense_advance_num (num : Terms (Coef K)) (k : Nat) :
+    dense (advance 0 num ((dense num).map (fun c => c.items.drop k)))
+      = (dense num).map (Coef.dropC k) := by
+  by_cases ht : num.isEmpty = true
+  · simp [dense, advance_isEmpty, ht]
+  · have ht' : num.isEmpty = false := by simpa using ht
+    simp only [dense, advance_isEmpty, ht', Bool.false_eq_true, if_false, order_advance, List.map_map]
+    apply List.map_congr_left
+    intro i hi
+    have hi' : i ≤ order num := by simp at hi; omega
+    simp only [Function.comp]
+    rw [coefAt_advance]
+    cases h : coefAt num (Int.ofNat i) with
+    | const c => rfl
+    | strm s =>
+      have h' : coefAt num (i : Int) = Coef.strm s := h
+      simp only [Coef.dropC, Coef.strm.injEq, Int.ofNat_eq_natCast, Int.toNat_natCast, Nat.sub_zero,
+        List.getD_eq_getElem?_getD, List.getElem?_map]
+      rw [List.getElem?_range (by omega)]
+      simp only [Option.map_some, Option.getD_some, Function.comp, h']
+      rfl
+
+/-- the same for the denominator (its delay-0 term is the constant gain; `a{k}` ↦ `its.a[k-1]`) -/
+theorem dense_advance_den (den : Terms (Coef K)) (g : K) (h0 : coefAt den 0 = Coef.const g) (k : Nat) :
+    dense (advance 1 den ((dense den).tail.map (fun c => c.items.drop k)))
+      = (dense den).map (Coef.dropC k) := by
+  by_cases ht : den.isEmpty = true
+  · simp [dense, advance_isEmpty, ht]
+  · have ht' : den.isEmpty = false := by simpa using ht
+    simp only [dense, advance_isEmpty, ht', Bool.false_eq_true, if_false, order_advance, List.map_map]
+    apply List.map_congr_left
+    intro i hi
+    have hi' : i ≤ order den := by simp at hi; omega
+    simp only [Function.comp]
+    rw [coefAt_advance]
+    cases h : coefAt den (Int.ofNat i) with
+    | const c => rfl
+    | strm s =>
+      have hpos : i ≠ 0 := by
+        intro hz; subst hz
+        have : coefAt den (Int.ofNat 0) = coefAt den 0 := rfl
+        rw [this, h0] at h
+        cases h
+      have h' : coefAt den (i : Int) = Coef.strm s := h
+      simp only [Coef.dropC, Coef.strm.injEq, Int.ofNat_eq_natCast, Int.toNat_natCast,
+        List.getD_eq_getElem?_getD, List.getElem?_map, List.getElem?_tail]
+      have hi1 : i - 1 + 1 = i := by omega
+      rw [hi1, List.getElem?_range (by omega)]
+      simp only [Option.map_some, Option.getD_some, Function.comp, h']
+      rfl
+
+theorem dropC_eq_zero (k : Nat) (c : Coef K) : c.dropC k = Coef.const 0 ↔ c = Coef.const 0 := by
+  cases c <;> simp [Coef.dropC]
+
+theorem map_dropC_zero (k : Nat) (l : List (Coef K)) :
+    (∀ c ∈ l.map (Coef.dropC k), c = Coef.const 0) ↔ ∀ c ∈ l, c = Coef.const 0 := by
+  simp only [List.mem_map, forall_exists_index, and_imp, forall_apply_eq_imp_iff₂, dropC_eq_zero]
+
+/-- **second call, constant gain, on the filter object**: a normalised causal filter object with a
+constant gain and Stream coefficients, called, its output (ended by the input) consumed, called
+again: the object now holds every coefficient Stream where the first call left it, and the second
+call — causality test, gain test, `values()`, memory, generated source, new generator on the same
+iterators — computes the difference equation with the coefficient index going on at `|xs1|`. -/
+theorem callTwice_const (num den : Terms (Coef K)) (mem1 mem2 : Mem K) (zero1 zero2 : K)
+    (xs1 xs2 : List K) (g : K)
+    (hnum : List.Pairwise (fun x y : Int × Coef K => x.1 < y.1) num)
+    (hden : List.Pairwise (fun x y : Int × Coef K => x.1 < y.1) den)
+    (hstored : ∀ kv ∈ num ++ den, kv.2 ≠ Coef.const 0) (hc : ∀ kv ∈ num ++ den, 0 ≤ kv.1)
+    (h0 : coefAt den 0 = Coef.const g) (hg : g ≠ 0)
+    (hnz : ¬ ((∀ c ∈ dense num, c = Coef.const 0) ∧ (∀ c ∈ (dense den).tail, c = Coef.const 0)))
+    (hfull : ∃ ys its, callTV num den mem1 zero1 xs1 = .ok (ys, its) ∧ ys.length = xs1.length) :
+    (callTwice num den mem1 zero1 xs1 mem2 zero2 xs2).2.map Prod.fst
+      = .ok (tvspec (dense num) (dense den).tail (Coef.const g) zero2 xs1.length
+              (memoryOf zero2 (dense den).tail.length mem2) [] xs2) := by
+  obtain ⟨ys, its, hr, hlen⟩ := hfull
+  have h0' : coefAt den 0 ≠ Coef.const 0 := by
+    rw [h0]; intro h; exact hg (Coef.const.inj h)
+  have ht := callTV_take num den mem1 zero1 xs1 hnum hden hstored hc h0' ys.length ys its hr
+    (Nat.le_refl _)
+  rw [hlen, List.take_length, hr] at ht
+  simp only [Except.ok.injEq, Prod.mk.injEq, loopCoeffs, h0] at ht
+  obtain ⟨_, hits⟩ := ht
+  simp only [callTwice, h0, hr]
+  rw [hits]
+  simp only
+  have hc2 : ∀ kv ∈ advance 0 num ((dense num).map (fun c => c.items.drop xs1.length))
+      ++ advance 1 den ((dense den).tail.map (fun c => c.items.drop xs1.length)), 0 ≤ kv.1 := by
+    intro kv hkv
+    rcases List.mem_append.1 hkv with h | h
+    · obtain ⟨kv', hm, he⟩ := advance_keys _ _ _ kv h
+      rw [← he]; exact hc kv' (by simp [hm])
+    · obtain ⟨kv', hm, he⟩ := advance_keys _ _ _ kv h
+      rw [← he]; exact hc kv' (by simp [hm])
+  have h02 : coefAt (advance 1 den ((dense den).tail.map (fun c => c.items.drop xs1.length))) 0
+      = Coef.const g := by
+    rw [coefAt_advance, h0]
+  have hdn := dense_advance_num num xs1.length
+  have hdd := dense_advance_den den g h0 xs1.length
+  have hnz2 : ¬ ((∀ c ∈ dense (advance 0 num ((dense num).map (fun c => c.items.drop xs1.length))),
+        c = Coef.const 0)
+      ∧ (∀ c ∈ (dense (advance 1 den ((dense den).tail.map (fun c => c.items.drop xs1.length)))).tail,
+        c = Coef.const 0)) := by
+    rw [hdn, hdd, ← List.map_tail, map_dropC_zero, map_dropC_zero]
+    exact hnz
+  rw [callTV_const_eq _ _ mem2 zero2 xs2 g hc2 h02 hg hnz2, hdn, hdd, ← List.map_tail, List.length_map]
+  congr 1
+  have := tvspec_dropC (dense num) (dense den).tail (Coef.const g) zero2 xs1.length xs2 0
+    (memoryOf zero2 (dense den).tail.length mem2) []
+  rw [Nat.zero_add] at this
+  exact this
+
 end ALV.C06
